@@ -460,6 +460,13 @@ def unit_histories(ctx):
                     tr.append(Sym('raised'))
             runs_m.append([[[k, bool(v)] for k, v in (dflt or {}).items()], parts_m])
             runs_i.append([tr, sorted(directive.DEFAULT_RUNTIME_STATE['REQUIRES'])])
+            # a state created NOW reads the defaults, whatever the states before it were last told (also inline)
+            fresh = directive.RuntimeState().to_dict()
+            if fresh != pristine:
+                diff = sorted(k for k in set(fresh) | set(pristine) if fresh.get(k) != pristine.get(k))
+                ctx.violation('defaults-written', {'what': 'a RuntimeState created after these updates of OTHER states does not read the defaults: differs in %r' % (diff,),
+                              'runs': repr(runs_m), 'theorem_or_correspondence': 'C11 fresh state owns its cells (heap model) on directive.RuntimeState'}, True)
+                return
             if directive.DEFAULT_RUNTIME_STATE != pristine:
                 ctx.violation('defaults-written', {'what': 'directive.DEFAULT_RUNTIME_STATE changed by RuntimeState updates: %r' % (directive.DEFAULT_RUNTIME_STATE,),
                               'runs': repr(runs_m), 'theorem_or_correspondence': 'C11_defaults_never_written on directive.RuntimeState'}, True)
